@@ -23,6 +23,7 @@ TRUSTED_BASE = [
 def env_offline():
     e = dict(os.environ)
     e.update(CARGO_NET_OFFLINE='true', CARGO_TERM_COLOR='never')
+    for k in ('CARGO_TARGET_DIR', 'CARGO_BUILD_TARGET_DIR', 'CARGO_BUILD_TARGET'): e.pop(k, None)      # the checks use their own target directories
     return e
 
 def sh(cmd, cwd=None, timeout=None, env=None, stdin=None):
@@ -160,7 +161,7 @@ def lean_props(ctx, build_modeld=True):
 def cargo_harness(ctx, bins):
     if not os.path.exists(os.path.join(HARNESS, 'Cargo.lock')) or open(os.path.join(HARNESS, 'Cargo.lock')).read() != open(os.path.join(REPO, 'Cargo.lock')).read():
         shutil.copy(os.path.join(REPO, 'Cargo.lock'), os.path.join(HARNESS, 'Cargo.lock'))
-    cmd = ['cargo', 'build', '--offline'] + sum((['--bin', b] for b in bins), [])
+    cmd = ['cargo', 'build', '--offline', '--target-dir', os.path.join(BUILD, 'target')] + sum((['--bin', b] for b in bins), [])
     rc, out, dt = sh(cmd, cwd=HARNESS, timeout=3600)
     ctx.cov['cargo_build_s'] = round(dt, 1)
     if rc != 0:
